@@ -63,9 +63,8 @@ ifeq ($(WORLD),w_rt)
   REPO_CXX := $(LIB_CXX) src/cpp/thread-link.cpp
   SAN :=
   EXTRA := seams/alloc_seam.cpp
-  SIMKIT += simkit/fiber.cpp
   NEED_VERSION := 1
-  LDLIBS += -ldl
+  LDLIBS += -ldl -rdynamic
 endif
 ifeq ($(WORLD),w_cap)
   REPO_C := $(LIB_C)
